@@ -38,6 +38,7 @@ import (
 	llssa "github.com/goplus/llgo/ssa"
 	"github.com/goplus/llgo/ssa/abi"
 	"github.com/xgo-dev/llvm"
+	gopackages "golang.org/x/tools/go/packages"
 	"golang.org/x/tools/go/ssa"
 	"golang.org/x/tools/go/ssa/ssautil"
 )
@@ -199,6 +200,27 @@ var (
 	c14RefPat = regexp.MustCompile(`@([0-9]+)\b`)
 )
 
+var c14RT *types.Package
+
+// the runtime package type-checked from source (its unexported declarations are needed), loaded like internal/build does
+func c14Runtime() *types.Package {
+	if c14RT != nil {
+		return c14RT
+	}
+	root := os.Getenv("LLGO_ROOT")
+	cfg := &gopackages.Config{
+		Mode: gopackages.NeedName | gopackages.NeedFiles | gopackages.NeedCompiledGoFiles | gopackages.NeedImports |
+			gopackages.NeedDeps | gopackages.NeedTypes | gopackages.NeedTypesSizes | gopackages.NeedSyntax | gopackages.NeedTypesInfo,
+		Dir: filepath.Join(root, "runtime"), BuildFlags: []string{"-tags=llgo,math_big_pure_go,purego"}, Fset: c14Fset,
+	}
+	ps, err := gopackages.Load(cfg, llssa.PkgRuntime)
+	if err != nil || len(ps) != 1 || ps[0].Types == nil || len(ps[0].Errors) > 0 {
+		panic(fmt.Sprintf("cannot load the runtime package: %v %v", err, ps))
+	}
+	c14RT = ps[0].Types
+	return c14RT
+}
+
 func c14Linkage(l llvm.Linkage) string {
 	switch l {
 	case llvm.ExternalLinkage:
@@ -306,13 +328,7 @@ func c14Run(p *c14Prog) (out c14Out) {
 		b.ssa.Build()
 	}
 	prog := llssa.NewProgram(nil)
-	prog.SetRuntime(func() *types.Package {
-		rt, err := c14Std.Import(llssa.PkgRuntime)
-		if err != nil {
-			panic(err)
-		}
-		return rt
-	})
+	prog.SetRuntime(c14Runtime())
 	prog.TypeSizes(types.SizesFor("gc", runtime.GOARCH))
 	out.Modules = map[string][]c14Sym{}
 	ctxs := map[string]*context{}
